@@ -513,7 +513,7 @@ func fileRead(L *LState) int {
 	return fileReadAux(L, checkFile(L), 2)
 }
 
-var filebufOptions = []string{"no", "full"}
+var filebufOptions = []string{"no", "full", "line"}
 
 func fileSetVBuf(L *LState) int {
 	var err error
@@ -523,8 +523,15 @@ func fileSetVBuf(L *LState) int {
 	if n := fileIsWritable(L, file); n != 0 {
 		return n
 	}
-	switch filebufOptions[L.CheckOption(2, filebufOptions)] {
-	case "no":
+	mode := filebufOptions[L.CheckOption(2, filebufOptions)]
+	if bwriter, ok := file.writer.(*bufio.Writer); ok {
+		// bytes still held by the writer that is about to be replaced are written out first
+		if err = bwriter.Flush(); err != nil {
+			goto errreturn
+		}
+	}
+	switch mode {
+	case "no", "line": // a line buffer is not implemented: unbuffered output never holds a line back
 		switch file.Type() {
 		case lFileFile:
 			file.writer = file.fp
@@ -534,7 +541,7 @@ func fileSetVBuf(L *LState) int {
 				goto errreturn
 			}
 		}
-	case "full", "line": // TODO line buffer not supported
+	case "full":
 		bufsize := L.OptInt(3, fileDefaultWriteBuffer)
 		switch file.Type() {
 		case lFileFile:
